@@ -317,7 +317,7 @@ def syncClock (rows : List Row) (sel : Option (List Int)) (shape : List Nat) (cl
 
 Specification side: the calendar (`civilOfDay`: walk the years, then the months, from 1970-01-01), the stamp
 `YYYY-MM-DD HH:MM:SS.mmm`, four-decimal coordinates, comma-separated fields (`fmtLine`).  Mechanism side: `splitComma`,
-the columns `read_nwi_laser_log` keeps (0, 1, 5, 6, 10, 13; state cut to 3, spot size to 16 characters), numpy's ISO
+the columns `read_nwi_laser_log` keeps (0, 1, 5, 6, 10, 13; state cut to 3, spot size to 32 characters), numpy's ISO
 stamp → `datetime64[ms]` conversion with its closed-form day count (`daysOfCivil`), blank `int` fields → -1. -/
 
 def isLeap (y : Nat) : Bool := (y % 4 == 0 && y % 100 != 0) || y % 400 == 0
@@ -451,7 +451,7 @@ def fmtLine (base : Int) (r : Row) (e : Extras) : List Char :=
   joinComma [fmtStamp (base + r.time).toNat, fmtSeq r.seq, e.sub, e.vertex, e.comment, fmtFixed4 r.x, fmtFixed4 r.y,
     e.ix, e.iy, e.vel, if r.on then ['O', 'n'] else ['O', 'f', 'f'], e.rate, e.spotType, r.spot.toList]
 
-/-- `read_nwi_laser_log` on one line: columns 0, 1, 5, 6, 10, 13 (state kept to 3, spot size to 16 characters);
+/-- `read_nwi_laser_log` on one line: columns 0, 1, 5, 6, 10, 13 (state kept to 3, spot size to 32 characters);
 `none` = the line has fewer than 14 fields or a field does not convert -/
 def parseLine (cs : List Char) : Option Row :=
   let f := splitComma cs
@@ -462,7 +462,7 @@ def parseLine (cs : List Char) : Option Row :=
     let x ← parseFixed4 (f.getD 5 [])
     let y ← parseFixed4 (f.getD 6 [])
     pure { time := (t : Int), seq := s, x := x, y := y, on := (f.getD 10 []).take 3 == ['O', 'n'],
-           spot := String.ofList ((f.getD 13 []).take 16) }
+           spot := String.ofList ((f.getD 13 []).take 32) }
 
 /-- a row at its absolute time: `b` = ms from 1970-01-01 to laser clock 0 -/
 def shiftRow (b : Int) (r : Row) : Row := { r with time := b + r.time }
@@ -493,10 +493,10 @@ def withExtras : Bool → List Row → List (Row × Extras)
   | prevOn, r :: rs => (r, extrasOf prevOn r) :: withExtras r.on rs
 
 /-- the hypotheses of the text layer that can be computed: the log starts after 1970-01-01, ends before the year
-10000, sequence numbers are blank (-1) or ≥ 0, and no spot size needs more than the 16 characters the reader keeps -/
+10000, sequence numbers are blank (-1) or ≥ 0, and no spot size needs more than the 32 characters the reader keeps -/
 def textHyp (base : Int) (rows : List Row) : Bool :=
   rows.all (fun r => decide (0 ≤ base + r.time) && decide (base + r.time < 253402300800000) &&
-    (decide (r.seq = -1) || decide (0 ≤ r.seq)) && decide (r.spot.toList.length ≤ 16) && !r.spot.toList.contains ',')
+    (decide (r.seq = -1) || decide (0 ≤ r.seq)) && decide (r.spot.toList.length ≤ 32) && !r.spot.toList.contains ',')
 
 /-- the whole chain from the text: the data lines are read, then synchronised; an unreadable line is a ValueError -/
 def syncText (lines : List (List Char)) (sel : Option (List Int)) (shape : List Nat) (clk : Clock) (delay : Rat)
